@@ -172,6 +172,21 @@ fn handle(req: &Value) -> Value {
                 Err(e) => json!({"ok": false, "errors": errs(e)}),
             }
         }
+        "pl_json_to_rq" => {
+            // staged API: PL given as a JSON document
+            let s = if req["pl"].is_string() { req["pl"].as_str().unwrap().to_string() } else { req["pl"].to_string() };
+            match prqlc::json::to_pl(&s).and_then(prqlc::pl_to_rq).and_then(|rq| prqlc::json::from_rq(&rq)) {
+                Ok(s) => json!({"ok": true, "rq": serde_json::from_str::<Value>(&s).unwrap_or(Value::Null)}),
+                Err(e) => json!({"ok": false, "errors": errs(e)}),
+            }
+        }
+        "pl_raw" => {
+            let prql = req["prql"].as_str().unwrap_or("");
+            match prqlc::prql_to_pl(prql).and_then(|pl| prqlc::json::from_pl(&pl)) {
+                Ok(s) => json!({"ok": true, "pl": serde_json::from_str::<Value>(&s).unwrap_or(Value::Null)}),
+                Err(e) => json!({"ok": false, "errors": errs(e)}),
+            }
+        }
         "pl" => {
             let prql = req["prql"].as_str().unwrap_or("");
             match pl_json(prql) {
